@@ -24,7 +24,7 @@ from prosemirror.model import Fragment, Schema
 
 PROPERTY = "C06"
 BOUNDS = ("expressions: all syntax trees of size <= 3 (thorough <= 4) over name | seq | alt | ? | * | + | {2} | {1,} | "
-          "{0,2} | {1,3}, three alphabets (a b c; a b in group g + c; inline text/img/ref with a non-generatable "
+          "{0,2} | {1,3} | {0,} | {0,1}, three alphabets (a b c; a b in group g + c; inline text/img/ref with a non-generatable "
           "ref), plus seeded larger expressions and the expressions used by the repository's schemas; child "
           "sequences up to L = n_M + n_R (cap 12)")
 ASSUMPTIONS = ["the bounded verdict extends to all lengths only where L reached n_M + n_R and the determinised position automaton recognises L(E) (not discharged by the solver; counted in evidence as full_bound)"]
@@ -39,7 +39,7 @@ ALPHABETS = {
             "nodes": {"img": {"inline": True, "group": "i", "attrs": {"alt": {"default": None}}}, "ref": {"inline": True, "attrs": {"id": {}}}},
             "parent": "p"},
 }
-UNARY = ["?", "*", "+", "{2}", "{1,}", "{0,2}", "{1,3}"]
+UNARY = ["?", "*", "+", "{2}", "{1,}", "{0,2}", "{1,3}", "{0,}", "{0,1}"]
 
 P = {}
 
@@ -288,7 +288,8 @@ def replay_equiv(p, ce):
 
 # ---- rejection clause (concrete) ------------------------------------------------------------------
 MALFORMED = ["zz", "a zz", "(a", "a)", "a{2", "a{2,", "a{,2}", "a |", "| a", "a | | b", "a{x}", "()", "a**b(", "*", "a (", "{2}",
-             "a{2,3", "(a | b", "a b)", "a+ )", "?", "a | )", "( | a)"]
+             "a{2,3", "(a | b", "a b)", "a+ )", "?", "a | )", "( | a)",
+             "a{1_0}", "a{\u0663}", "a{1x}", "a{2,1_0}", "a{x1}"]         # numbers are ASCII digit strings only
 
 
 def direct_reject(p):
@@ -497,6 +498,12 @@ def obligations(tier, seed):
             obs.append({"name": "equiv/%s/seeded/%d" % (alpha, lo), "fn": "direct_equiv", "kind": "direct",
                         "P": {"alpha": alpha, "what": "seeded", "count": cnt, "seed": seed * 7919 + 13, "lo": lo, "hi": lo + 10},
                         "timeout": 900})
+    # open ranges next to an alternative, and nullable bounded ranges under a repetition (epsilon cycles in the NFA)
+    obs.append({"name": "equiv/abc/explicit", "fn": "direct_equiv", "kind": "direct", "timeout": 900,
+                "P": {"alpha": "abc", "what": "explicit",
+                      "exprs": ["a{0,} | b", "b | a{0,}", "(a{0,} b)*", "c (a{0,} | b)", "(a{0,} | b) c", "(a{0,} | b){2}", "a{0,} c | b",
+                                "(a{0,1})*", "(a{0,1} b{0,1})*", "(a | b{0,1})+", "(a{0,1}){1,}", "((a b?){0,1})*", "((a?){1})*",
+                                "(a{0,1} | b)*", "a{2,} | b", "(a{1,} | b) c"]}})
     obs.append({"name": "repo-expressions", "fn": "direct_repo", "kind": "direct", "P": {}, "timeout": 900})
     obs.append({"name": "reject-malformed", "fn": "direct_reject", "kind": "direct", "P": {}, "timeout": 900})
     e1_setup()
